@@ -69,8 +69,17 @@ pub struct Model {
     pub cum_ref: Vec<Option<i128>>,
     /// the fee pool the engine was last configured with, from the history of accepted calls (None: as deployed)
     pub fee_pool_ref: Option<String>,
+    /// the whitelist, from the history of accepted AddWhitelist / RemoveWhitelist calls
+    pub whitelist: BTreeSet<String>,
     /// the insurance fund's registry as the history of accepted AddVamm / RemoveVamm calls implies it
     pub registry_ref: BTreeSet<String>,
+    /// whether each vAMM is open, from the history of accepted SetOpen / ShutdownVamms calls
+    pub open_ref: Vec<bool>,
+    /// configuration values as the history of accepted configuration calls leaves them (named field -> value):
+    /// per vAMM ("holding_cap", "oi_cap", "toll", "spread", "fluct", "twap_interval") and for the engine
+    /// ("initial", "maintenance", "partial", "liq_fee")
+    pub vamm_cfg_ref: Vec<BTreeMap<&'static str, U>>,
+    pub eng_cfg_ref: BTreeMap<&'static str, U>,
 }
 
 /// Evidence and violation collector for one run.
@@ -283,6 +292,23 @@ impl Runner {
             model.feed.push(vec![]);
         }
         model.registry_ref = obs.registry.iter().cloned().collect();
+        model.open_ref = obs.vamms.iter().map(|v| v.open).collect();
+        for v in obs.vamms.iter() {
+            let mut m = BTreeMap::new();
+            m.insert("holding_cap", v.holding_cap);
+            m.insert("oi_cap", v.oi_cap);
+            m.insert("toll", v.toll);
+            m.insert("spread", v.spread);
+            m.insert("fluct", v.fluct);
+            m.insert("twap_interval", v.twap_interval as U);
+            model.vamm_cfg_ref.push(m);
+        }
+        if let Some(e) = &obs.eng {
+            model.eng_cfg_ref.insert("initial", e.initial);
+            model.eng_cfg_ref.insert("maintenance", e.maintenance);
+            model.eng_cfg_ref.insert("partial", e.partial);
+            model.eng_cfg_ref.insert("liq_fee", e.liq_fee);
+        }
         let mut ev = Ev::default();
         ev.property = prop.to_string();
         // harness self-check: the raw census agrees with the public balance queries
@@ -474,6 +500,9 @@ impl Runner {
         if self.prop == "C17" {
             oracles::c17::refusal_probe(self, step);
         }
+        if self.prop == "C20" {
+            oracles::c20::exempt_probe(self, step);
+        }
         // probes on the post-state, in forks
         for p in step.probes.iter() {
             match p {
@@ -493,6 +522,52 @@ impl Runner {
         if out.ok {
             if let Op::SetPause { pause } = step.op {
                 self.model.paused = pause;
+            }
+            match &step.op {
+                Op::VammConfig { vamm, holding_cap, oi_cap, toll, spread, fluct, twap_interval, .. } => {
+                    if let Some(m) = self.model.vamm_cfg_ref.get_mut(*vamm) {
+                        for (k, val) in [("holding_cap", holding_cap), ("oi_cap", oi_cap), ("toll", toll), ("spread", spread), ("fluct", fluct)] {
+                            if let Some(x) = val {
+                                m.insert(k, *x);
+                            }
+                        }
+                        if let Some(t) = twap_interval {
+                            m.insert("twap_interval", *t as U);
+                        }
+                    }
+                }
+                Op::EngineConfig { initial, maintenance, partial, liq_fee, .. } => {
+                    for (k, val) in [("initial", initial), ("maintenance", maintenance), ("partial", partial), ("liq_fee", liq_fee)] {
+                        if let Some(x) = val {
+                            self.model.eng_cfg_ref.insert(k, *x);
+                        }
+                    }
+                }
+                _ => {}
+            }
+            match &step.op {
+                Op::SetOpen { vamm, open } => {
+                    if *vamm < self.model.open_ref.len() {
+                        self.model.open_ref[*vamm] = *open;
+                    }
+                }
+                Op::Shutdown => {
+                    for (i, a) in self.w.addrs.vamms.iter().enumerate() {
+                        if self.model.registry_ref.contains(a) && i < self.model.open_ref.len() {
+                            self.model.open_ref[i] = false;
+                        }
+                    }
+                }
+                _ => {}
+            }
+            match &step.op {
+                Op::AddWhitelist { address } => {
+                    self.model.whitelist.insert(self.w.resolve(address));
+                }
+                Op::RemoveWhitelist { address } => {
+                    self.model.whitelist.remove(&self.w.resolve(address));
+                }
+                _ => {}
             }
             if let Op::EngineConfig { fee_pool: Some(fp), .. } = &step.op {
                 self.model.fee_pool_ref = Some(self.w.resolve(fp));
